@@ -16,6 +16,8 @@ pub struct Ctx {
     /// cache: signer name -> a good signature value over `content`
     cache: HashMap<String, Vec<u8>>,
     bad_count: usize,
+    /// the authorised keys as read from JSON documents that carry another key's id in their "keyid" member
+    lying: HashMap<String, in_toto::crypto::PublicKey>,
 }
 
 impl Ctx {
@@ -23,7 +25,16 @@ impl Ctx {
         let mut km = KeyMap::new(family, &NAMES);
         let ku = km.unknown_scheme_twin("k5");
         km.add_public("ku", ku);
-        Ctx { km, content: simple_link("c04"), cache: HashMap::new(), bad_count: 0 }
+        let mut lying = HashMap::new();
+        for (n, name) in NAMES.iter().enumerate() {
+            let other = NAMES[(n + 1) % NAMES.len()];
+            let mut v = serde_json::to_value(km.pk(name)).unwrap();
+            v["keyid"] = json!(km.idstr(other));
+            if let Ok(k) = serde_json::from_value::<in_toto::crypto::PublicKey>(v) {
+                lying.insert(name.to_string(), k);
+            }
+        }
+        Ctx { km, content: simple_link("c04"), cache: HashMap::new(), bad_count: 0, lying }
     }
 
     fn sig_value(&mut self, by: &str, fresh: bool) -> Vec<u8> {
@@ -97,7 +108,11 @@ impl Ctx {
                     signatures: p.iter().map(|&i| sigs[i].clone()).collect(),
                     metadata: self.content.clone(),
                 };
-                let keys: Vec<&in_toto::crypto::PublicKey> = q.iter().map(|&i| self.km.pk(&auth[i])).collect();
+                // every other scenario the authorised keys reach the verifier as JSON documents whose "keyid" member
+                // names ANOTHER key: the member is not part of a key's description, its identifier is computed
+                let lying = scn["i"].as_u64().unwrap_or(0) % 2 == 1;
+                let keys: Vec<&in_toto::crypto::PublicKey> =
+                    q.iter().map(|&i| if lying { self.lying.get(&auth[i]).unwrap_or_else(|| self.km.pk(&auth[i])) } else { self.km.pk(&auth[i]) }).collect();
                 let rec = want_events && pi == 0 && qi == 0;
                 if rec {
                     in_toto::verif::start_recording();
